@@ -23,7 +23,7 @@ HARNESS_DIR = os.path.join(ROOT, "harness")
 HARNESS_BIN = os.path.join(ROOT, "target", "harness", "debug", "harness")
 LACE_TARGET = os.path.join(ROOT, "target", "lace")
 LACE_BIN = os.path.join(LACE_TARGET, "debug", "lace")
-REPO = "/repo"
+REPO = os.environ.get("VERIF_REPO", "/repo")      # (the override is only used by bin/seed-regress-par, on scratch copies)
 FINDINGS = os.path.join(ROOT, "known_findings.json")
 
 TOOL_ERROR = 2
